@@ -335,7 +335,7 @@ Proof. destruct b; [reflexivity | discriminate]. Qed.
 Lemma guard_try_inv s0 body hs orelse final :
   guard_stmt (STry s0 body hs orelse final) = true ->
   guard_stmt s0 = true /\ guard_block body = true /\ guard_blocks hs = true /\ guard_block orelse = true
-  /\ guard_block final = true /\ (is_nil final || no_jumps (jumps_blocks hs)) = true.
+  /\ guard_block final = true.
 Proof.
   simpl. intros G. repeat (apply andb_true_iff in G; destruct G as [G ?]). repeat split; assumption.
 Qed.
@@ -353,11 +353,12 @@ Section Try.
   Let fe := entry_block final (knext k).
   Let jt (outer : list label) := if nofin then outer else fe.
   Let he := entry_blocks hs fe.
-  Let prot := jor (jor (jumps_stmt s0) (jumps_block body)) (jumps_block orelse).
+  Let prot_in := jor (jor (jumps_stmt s0) (jumps_block body)) (jumps_block orelse).
+  Let prot := jor prot_in (jumps_blocks hs).
   Let direct := (falls_stmt s0 && falls_block body && falls_block orelse) || falls_blocks hs.
   Let kbody := mkconts (entry_block orelse fe) (jt (kbrk k)) (jt (kcont k)) (jt (kret k)) (he ++ kraise k).
   Let korelse := mkconts fe (jt (kbrk k)) (jt (kcont k)) (jt (kret k)) (kraise k).
-  Let khandler := mkconts fe (kbrk k) (kcont k) (kret k) (kraise k).
+  Let khandler := mkconts fe (jt (kbrk k)) (jt (kcont k)) (jt (kret k)) (kraise k).
   Let kfinal := mkconts (sel direct (knext k) ++ sel (jb prot) (kbrk k) ++ sel (jc prot) (kcont k)
                          ++ sel (jr prot || jx prot) (kret k)) (kbrk k) (kcont k) (kret k) (kraise k).
   Let ks0 := mkconts (entry_block body (knext kbody)) (kbrk kbody) (kcont kbody) (kret kbody) (kraise kbody).
@@ -428,10 +429,10 @@ Section Try.
 
   (* what phase 2 establishes, by origin of the outcome *)
   Definition post2 (tr2 : list label) (o2 : outcome) : Prop :=
-    (R tr2 (target o2 korelse) /\ jok o2 prot
+    (R tr2 (target o2 korelse) /\ jok o2 prot_in
        /\ (o2 = ONormal -> falls_stmt s0 && falls_block body && falls_block orelse = true))
     \/ (R tr2 (target o2 khandler) /\ jok o2 (jumps_blocks hs) /\ (o2 = ONormal -> falls_blocks hs = true))
-    \/ (o2 <> ONormal /\ R tr2 (target o2 kbody) /\ jok o2 prot).
+    \/ (o2 <> ONormal /\ R tr2 (target o2 kbody) /\ jok o2 prot_in).
 
   Lemma ph2_ok tr1 o1 d1 tr2 o2 d2 :
     R tr1 (target o1 kbody) -> jok o1 (jor (jumps_stmt s0) (jumps_block body)) ->
@@ -479,7 +480,7 @@ Section Try.
   Lemma R_nil tr T : R tr T -> R tr [].
   Proof. apply R_sub; intros x []. Qed.
 
-  Lemma jumps_ST : jumps_stmt ST = jor prot (jor (jumps_blocks hs) (jumps_block final)).
+  Lemma jumps_ST : jumps_stmt ST = jor prot_in (jor (jumps_blocks hs) (jumps_block final)).
   Proof. reflexivity. Qed.
 
   Lemma falls_ST : falls_stmt ST = direct && falls_block final.
@@ -512,7 +513,7 @@ Section Try.
     split; [|split].
     - apply R_good. destruct P as [[R2 _] | [[R2 _] | [N [R2 _]]]].
       + eapply R_sub; [|exact R2]. destruct o2; simpl; rewrite ?Hjt, ?Hfe; apply incl_refl.
-      + eapply R_sub; [|exact R2]. destruct o2; simpl; rewrite ?Hfe; apply incl_refl.
+      + eapply R_sub; [|exact R2]. destruct o2; simpl; rewrite ?Hjt, ?Hfe; apply incl_refl.
       + eapply R_sub; [|exact R2]. destruct o2; simpl; rewrite ?Hjt; try apply incl_refl; try congruence.
         apply incl_app; [apply incl_appl, incl_appr, incl_refl | apply incl_appr, incl_refl].
     - eapply post2_jok; eauto.
@@ -521,14 +522,14 @@ Section Try.
 
   (* ---- with a finally clause ---- *)
   Lemma fin_run tr2 o2 d2 tr o d' :
-    is_nil final = false -> guard_block final = true -> no_jumps (jumps_blocks hs) = true ->
+    is_nil final = false -> guard_block final = true ->
     post2 tr2 o2 -> (o2 = ONormal \/ o2 = OBrk \/ o2 = OCont \/ o2 = ORet) ->
     (let '(trf, of, df) := exec_block n final d2 in
        (tr2 ++ trf, match of with ONormal => o2 | _ => of end, df)) = (tr, o, d') ->
     o <> OFuel ->
     good_stmt E ST k tr o /\ jok o (jumps_stmt ST) /\ (o = ONormal -> falls_stmt ST = true).
   Proof.
-    intros Nf Gf NJ P Ho2 H Ho.
+    intros Nf Gf P Ho2 H Ho.
     assert (Hjt : forall X, jt X = fe) by (intros X; unfold jt, nofin; rewrite Nf; reflexivity).
     destruct (exec_block n final d2) as [[trf of] df] eqn:Ef. injection H as <- <- <-.
     assert (Nof : of <> OFuel) by (intros ->; congruence).
@@ -537,8 +538,7 @@ Section Try.
     assert (Rfe : R tr2 fe).
     { destruct P as [[R2 _] | [[R2 [J2 _]] | [N [R2 _]]]].
       - eapply R_sub; [|exact R2]. destruct Ho2 as [-> | [-> | [-> | ->]]]; simpl; rewrite ?Hjt; apply incl_refl.
-      - destruct (no_jumps_jok _ _ NJ J2) as [N1 [N2 N3]].
-        destruct Ho2 as [-> | [-> | [-> | ->]]]; try congruence. exact R2.
+      - eapply R_sub; [|exact R2]. destruct Ho2 as [-> | [-> | [-> | ->]]]; simpl; rewrite ?Hjt; apply incl_refl.
       - eapply R_sub; [|exact R2]. destruct Ho2 as [-> | [-> | [-> | ->]]]; try congruence; simpl; rewrite Hjt; apply incl_refl. }
     assert (RF : R (tr2 ++ trf) (target of kfinal)).
     { eapply R_extend; [exact Rfe | exact GF | exact If |].
@@ -553,16 +553,16 @@ Section Try.
         destruct Ho2 as [-> | [-> | [-> | ->]]]; cbn [target].
         * rewrite (post2_direct _ P). cbn [sel]. apply incl_appl, incl_refl.
         * assert (J : jb prot = true).
-          { destruct P as [[_ [J _]] | [[_ [J _]] | [_ [_ J]]]]; try exact J.
-            destruct (no_jumps_jok _ _ NJ J) as [N1 _]; congruence. }
+          { unfold prot. destruct P as [[_ [J _]] | [[_ [J _]] | [_ [_ J]]]]; simpl in J |- *; rewrite J;
+              rewrite ?orb_true_r; reflexivity. }
           rewrite J. cbn [sel]. apply incl_appr, incl_appl, incl_refl.
         * assert (J : jc prot = true).
-          { destruct P as [[_ [J _]] | [[_ [J _]] | [_ [_ J]]]]; try exact J.
-            destruct (no_jumps_jok _ _ NJ J) as [_ [N2 _]]; congruence. }
+          { unfold prot. destruct P as [[_ [J _]] | [[_ [J _]] | [_ [_ J]]]]; simpl in J |- *; rewrite J;
+              rewrite ?orb_true_r; reflexivity. }
           rewrite J. cbn [sel]. apply incl_appr, incl_appr, incl_appl, incl_refl.
         * assert (J : jr prot = true).
-          { destruct P as [[_ [J _]] | [[_ [J _]] | [_ [_ J]]]]; try exact J.
-            destruct (no_jumps_jok _ _ NJ J) as [_ [_ N3]]; congruence. }
+          { unfold prot. destruct P as [[_ [J _]] | [[_ [J _]] | [_ [_ J]]]]; simpl in J |- *; rewrite J;
+              rewrite ?orb_true_r; reflexivity. }
           rewrite J. cbn [sel orb]. apply incl_appr, incl_appr, incl_appr, incl_refl.
       + eapply post2_jok; eauto.
       + intros ->. rewrite falls_ST, (post2_direct _ P), (FF eq_refl). reflexivity.
@@ -582,7 +582,7 @@ Section Try.
     change (exec_stmt (S n) ST d) with
       (try_ph3 (exec_block n) final (try_ph2 (exec_block n) hs orelse
          (try_ph1 (exec_stmt n) (exec_block n) s0 body d))) in H.
-    apply guard_try_inv in G. destruct G as [G0 [Gb [Gh [Go [Gf GJ]]]]].
+    apply guard_try_inv in G. destruct G as [G0 [Gb [Gh [Go Gf]]]].
     destruct (try_ph1 (exec_stmt n) (exec_block n) s0 body d) as [[tr1 o1] d1] eqn:E1.
     destruct (try_ph2 (exec_block n) hs orelse (tr1, o1, d1)) as [[tr2 o2] d2] eqn:E2.
     assert (N2 : o2 <> OFuel).
@@ -593,8 +593,7 @@ Section Try.
     pose proof (ph2_ok _ _ _ _ _ _ R1 J1 F1 E2 N2 Gh Go) as P.
     unfold try_ph3 in H. destruct (bool_cases (is_nil final)) as [Nf|Nf]; rewrite Nf in H.
     - injection H as <- <- <-. apply nofin_case; assumption.
-    - rewrite Nf in GJ. simpl in GJ.
-      destruct o2.
+    - destruct o2.
       + eapply fin_run; eauto.
       + eapply fin_run; eauto.
       + eapply fin_run; eauto.
@@ -645,3 +644,25 @@ Proof.
   unfold top_ok in T. apply andb_true_iff in T. destruct T as [T1 T2]. apply negb_true_iff in T1, T2.
   destruct ob; simpl in JB; try congruence; try exact I; apply L; simpl; left; reflexivity.
 Qed.
+
+(* the former guard of the handler-jump finding is now true of every program *)
+Scheme sk_stmt_ind := Induction for stmt Sort Prop
+  with sk_block_ind := Induction for block Sort Prop
+  with sk_blocks_ind := Induction for blocks Sort Prop.
+Combined Scheme sk_mutind from sk_stmt_ind, sk_block_ind, sk_blocks_ind.
+
+Lemma guard_true :
+  (forall s, guard_stmt s = true) /\ (forall b, guard_block b = true) /\ (forall h, guard_blocks h = true).
+Proof.
+  apply sk_mutind; intros; simpl; repeat match goal with H : _ = true |- _ => rewrite H end; reflexivity.
+Qed.
+
+Theorem exec_fn_is_path_unguarded n f d tr o d' :
+  exec_fn n f d = (tr, o, d') -> o <> OFuel -> top_ok f = true ->
+  exists r, tr = f_args f :: r /\ chain (cfg_fn f) (f_args f) r /\
+    match o with
+    | ONormal | ORet | ORaised => In (lastd (f_args f) r, EXIT) (cfg_fn f)
+    | OEscaped => True
+    | _ => False
+    end.
+Proof. intros H Ho T. eapply exec_fn_is_path; eauto. apply (proj1 (proj2 guard_true)). Qed.
